@@ -9,8 +9,17 @@
    Viterbi recursion.  The functions are pure, so everything is decided in the initial state:
    verdict = 0 (accepted) or the number of the first clause that fails.
 
-   Trace record: cm (T rows of C costs, 999 = +inf), labels, blank, outcome ("ok" | "error" = ValueError | other),
-   path (symbol per frame), seq (character number per frame, 0 on blank frames), pos (1-based frame per character). *)
+   Trace record: kind ("case" | "scale"), cm (T rows of C costs, 999 = +inf), labels, blank, outcome ("ok" | "error" = ValueError |
+   other), path (symbol per frame), seq (character number per frame, 0 on blank frames), pos (1-based frame per character).
+
+   kind = "scale": one call of a SESSION - many calls in one process, one after another, on lines far beyond the bounds TLC can
+   enumerate (more than 64 / 128 labels, more than 255 symbols, more than 1024 frames; the shape is that of the record, not the
+   constants T, C), lines of equal length that differ only in where labels repeat, infeasible / tight / loose numbers of frames,
+   failing calls in between, the callers' list and matrix objects re-used.  C^T labellings cannot be enumerated there, so the
+   minimum is computed BY TLC with the Viterbi recursion of the design module itself (PredS / SymOfS; the invariant ColumnExact
+   proves that column equal to the brute-force minimum on every bounded shape), carried out on the recorded matrix, together with
+   the number of optimal alignments (capped at 2).  Every call is judged on its own, by the same clauses and numbers as a bounded
+   case: the statement does not depend on what was aligned before. *)
 EXTENDS ForcedAlign, TraceKit
 CONSTANT SeqClause     \* TRUE: also judge the return_seq_positions variant (clause 7).  It is not named by the statement, so the
                        \* verdict pass runs with FALSE and a mismatch found with TRUE is reported as MODEL-DRIFT only.
@@ -40,12 +49,57 @@ Judge ==
     ELSE IF ~(PosExplainedBy(Tr.path) \/ \E a \in OptValid : PosExplainedBy(a)) THEN 9    \* not the most confident frame of the character
     ELSE 0
 
+\* ------------------------------------------------------------------------------------------------ kind = "scale"
+SInf == 1000000000                                   \* +inf of the scale arithmetic (path costs exceed the 999 of the bounded shapes)
+SPlus(a, b) == IF a >= SInf \/ b >= SInf THEN SInf ELSE a + b
+ST == Len(Tr.cm)                                     \* frames of this call
+SSyms == 0..(Len(Tr.cm[1]) - 1)
+SC(f, s) == IF Tr.cm[f][s + 1] = Inf THEN SInf ELSE Tr.cm[f][s + 1]       \* 999 = +inf in the record; other costs may exceed it
+Explicit(f) == f @@ <<>>                             \* an explicit table (TLC keeps [x \in S |-> e] unevaluated otherwise)
+\* one Viterbi column: row[i] = <<minimal cost of a partial alignment ending in HMM state i-1, number of such minimal ones (capped at 2)>>
+SFirstRow == Explicit([i \in 1..NS |-> IF i <= 2 THEN <<SC(1, SymOf(i - 1)), IF SC(1, SymOf(i - 1)) >= SInf THEN 0 ELSE 1>>
+                                       ELSE <<SInf, 0>>])
+SCell(prev, f, i) == LET P == Pred(i - 1)
+                         m == MinOf({prev[j + 1][1] : j \in P})
+                         n == FoldSet(LAMBDA j, acc : IF prev[j + 1][1] = m THEN acc + prev[j + 1][2] ELSE acc, 0, P)
+                         c == SPlus(m, SC(f, SymOf(i - 1)))
+                     IN  <<c, IF c >= SInf THEN 0 ELSE Min2(n, 2)>>
+\* the loop over the frames f..ST (FoldLeft: evaluated iteratively, a recursive operator 1000+ levels deep is several times slower)
+SRun(row, f) == FoldLeft(LAMBDA r, g : Explicit([i \in 1..NS |-> SCell(r, g, i)]), row, [k \in 1..(ST - f + 1) |-> f + k - 1])
+SPathCost(a) == FoldSet(LAMBDA f, acc : SPlus(acc, SC(f, a[f])), 0, 1..ST)
+\* a labelling that collapses to the labels exists  <=>  enough frames for the labels plus one blank per immediate repeat
+\* (independent of the costs; on the bounded shapes this is the invariant FeasibilityBoundary)
+SFeasible == /\ ~BlankAmongLabels
+             /\ ST >= L + Cardinality({k \in 1..(L - 1) : labels[k] = labels[k + 1]})
+SFrameBest(f) == MinOf({SC(f, s) : s \in SSyms})
+SPosAdmissible(p, ci) == \A k \in 1..L : /\ p[k] \in FramesOf(ci, k)
+                                          /\ \A f \in FramesOf(ci, k) : SFrameBest(p[k]) <= SFrameBest(f)
+
+SJudge ==
+    IF Tr.outcome \notin {"ok", "error"} THEN 1
+    ELSE IF BlankAmongLabels THEN (IF Tr.outcome = "error" THEN 0 ELSE 3)
+    ELSE LET last == SRun(SFirstRow, 2)
+             best == Min2(last[NS][1], last[NS - 1][1])
+             nopt == (IF last[NS][1] = best THEN last[NS][2] ELSE 0) + (IF last[NS - 1][1] = best THEN last[NS - 1][2] ELSE 0)
+         IN  IF Tr.outcome = "error" THEN (IF best >= SInf THEN 0 ELSE 2)
+             ELSE IF ~SFeasible THEN 3
+             ELSE IF ~IsSeqOver(Tr.path, ST, SSyms) THEN 4
+             ELSE IF Collapse(Tr.path) # labels THEN 5
+             ELSE IF SPathCost(Tr.path) # best THEN 6
+             ELSE IF ~IsSeqOver(Tr.pos, L, 1..ST) THEN 8
+             ELSE IF ~StrictlyIncreasing(Tr.pos) THEN 8
+             \* the recorded alignment is THE optimal one: align_text has no other alignment to derive its positions from
+             ELSE IF nopt = 1 /\ best < SInf /\ ~SPosAdmissible(Tr.pos, CharIdx(Tr.path)) THEN 9
+             ELSE 0
+
 TInit == /\ tid \in 1..NTraces
-         /\ cm = [f \in 1..T |-> [s \in Syms |-> Traces[tid].cm[f][s + 1]]]
+         /\ cm = IF Traces[tid].kind = "scale"
+                 THEN [f \in 1..Len(Traces[tid].cm) |-> [s \in 0..(Len(Traces[tid].cm[f]) - 1) |-> Traces[tid].cm[f][s + 1]]]
+                 ELSE [f \in 1..T |-> [s \in Syms |-> Traces[tid].cm[f][s + 1]]]
          /\ labels = Traces[tid].labels
          /\ blank = Traces[tid].blank
          /\ phase = "start" /\ t = 0 /\ hist = <<>> /\ path = <<>> /\ pos = <<>>
-         /\ verdict = Judge
+         /\ verdict = IF Traces[tid].kind = "scale" THEN SJudge ELSE Judge
 
 TNext == UNCHANGED <<vars, tid, verdict>>
 
